@@ -6,6 +6,7 @@ import DC.Spec.Tree
 import DC.Spec.Embed
 import DC.Model.ExplainSelect
 import DC.Model.ExplainDDL
+import DC.Model.ExplainUtil
 import DC.Model.Lexer
 import DC.Model.LexerRd
 import DC.Model.LitDriver
@@ -26,6 +27,7 @@ def handlers : List (String → List String → Option String) := [
   DC.Spec.Embed.handle,      -- c07 (op `embed`)
   DC.Model.ExplainSelect.handle, -- c04 (ops `selshape`, `selshapeinh`, `unionshape`)
   DC.Model.ExplainDDL.handle, -- c04 DDL pairs (ops `altershape`, `altername`, `statshape`, `projshape`, `projselshape`, `colshape`, `idxshape`, `createshape`, `colsdefshape`, `storageshape`, `innerstorageshape`)
+  DC.Model.ExplainUtil.handle, -- c04 utility-statement pairs (ops `util…`: `utildrop`, `utilrename`, `utilshow`, …)
   DC.Lexer.handle,           -- c12/c13 (ops `lex`, `uni`)
   DC.LexerRd.handle,         -- c14 lexer over bufio over a scripted reader (op `lexbufio`)
   DC.Model.LitDriver.handle, -- c09 (ops `c09num`, `c09str`, `c09float`, `c09nest`, `c09dec`)
